@@ -1171,6 +1171,9 @@ type realCase struct {
 	fails   [][3]string
 	closeOK bool
 	counts  []string
+	// chunks with / without a secondary resource in the written file; longest stored dictionary used
+	won, lost, maxWonDict int
+	dictSig               string // set by the shared-resource section: signature for Nontrivial
 	notes   []string
 }
 
@@ -1280,6 +1283,27 @@ func (c *realCase) run(scratch string, idx int) {
 	if d != uint64(len(c.payload)) {
 		c.fail("dfilesize:"+rc.name, "DFileSize differs from the number of bytes written")
 	}
+	// which chunks were compressed against a shared resource, and how long the stored
+	// (codec-refined) dictionary is: the input distribution of the resource dimension
+	for _, ch := range chunks {
+		if ch.s[0] == ch.s[1] {
+			c.lost++
+			continue
+		}
+		c.won++
+		cls := "?"
+		if ch.s[0]+4 <= uint64(len(c.file)) {
+			n := getU32le(c.file[ch.s[0]:])
+			cls = fmt.Sprint(n)
+			if n >= 2 && n <= 2000 {
+				cls = "2..2000"
+			}
+			if n > c.maxWonDict {
+				c.maxWonDict = n
+			}
+		}
+		c.counts = append(c.counts, "real:"+rc.name+":chunk-uses-resource:stored-dict-len="+cls)
+	}
 	if mode != "cchunk" {
 		ds := c.dchunk
 		if ds == 0 {
@@ -1377,7 +1401,11 @@ func (h *H) realRuns(n int) {
 		}
 		cases = append(cases, c)
 	}
-	// run in parallel (each case is independent), report in order
+	h.runRealCases(cases, scratch)
+}
+
+// runRealCases runs the cases in parallel (each case is independent) and reports in order.
+func (h *H) runRealCases(cases []*realCase, scratch string) {
 	var wg sync.WaitGroup
 	sem := make(chan struct{}, 12)
 	for i, c := range cases {
@@ -1391,7 +1419,11 @@ func (h *H) realRuns(n int) {
 					c.fail("panic:writer:"+realCodecs[c.codec].name, fmt.Sprint("panic: ", e))
 				}
 			}()
+			t0 := time.Now()
 			c.run(scratch, i)
+			if os.Getenv("C13_TIMING") != "" {
+				fmt.Fprintf(os.Stderr, "real case %d: %.2fs %s payload=%d parts=%d nres=%d d=%d c=%d\n", i, time.Since(t0).Seconds(), realCodecs[c.codec].name, len(c.payload), len(c.parts), len(c.res), c.dchunk, c.cchunk)
+			}
 		}(i, c)
 	}
 	wg.Wait()
@@ -1419,6 +1451,9 @@ func (h *H) realRuns(n int) {
 			h.r.Op("spec "+hlib.Hex(c.file), sVerdict(c.file))
 			if len(c.fails) == 0 && len(c.payload) > 0 {
 				h.r.Nontrivial(fmt.Sprintf("real|%d|%d|%d|%d|%d|%d|%d|%d", c.codec, c.loc, c.cps, c.tempKind, c.cchunk, c.dchunk, len(c.payload), len(c.parts)))
+				if c.dictSig != "" && c.won > 0 {
+					h.r.Nontrivial(fmt.Sprintf("realdict|%s|won=%d|lost=%d", c.dictSig, c.won, c.lost))
+				}
 			}
 		}
 	}
@@ -1471,6 +1506,7 @@ func main() {
 	section("writer", func() { h.writerRuns(700 * scale) })
 	section("specmut", func() { h.specMutations(1500 * scale) })
 	section("real", func() { h.realRuns(200 * scale) })
+	section("realdict", func() { h.realDictRuns(60 * scale) })
 	r.Finish("cases: writeBuffer states over {0,1,2,3}-bytes; leaf lists at the arity thresholds (84..86, 254..257, 509..511, 65025..65281); " +
 		"ChunkWriter op sequences (resources, zero-size/invalid/mixed-codec chunks, both index locations, page sizes 0/2/4/8/128/4096, temp-file kinds, fault at call k); " +
 		"rac.Writer runs with the harness codec (CChunkSize 1..300 forcing Cut, DChunkSize 1..1000, default; payload styles all-zero/random/zero-runs/zero-runs at chunk boundaries/text/sparse, 0..300 KiB; write partitions whole/1/2/7/random/with empty writes; resources 0..3; faults at every call k<=50 and random later) " +
